@@ -219,6 +219,25 @@ def build() -> Check:
         any("new_execution_state.operations" in ast.unparse(a_) for a_ in fcall.args)
     ck.ob("R3.merge-uses-response", fn_construct(cbf), merged_ok, f"fetch_paginated_operations({', '.join(ast.unparse(a_) for a_ in fcall.args)})")
 
+    # the same through interpretation of the consumer (covers helpers the handler delegates to)
+    from sa.protocol import consumer_traces
+    from sa.values import Obj as _Obj
+    bad_c = []
+    for t in consumer_traces(pm):
+        for i, e in enumerate(t.events):
+            if e.kind == "API" and e.data["outcome"] == "fails":
+                for s_ in t.events[i + 1:]:
+                    if s_.kind == "EV_SET" and s_.data["error"] == "None":
+                        bad_c.append((f"after a failed API call {s_.data['ev']} is released as if its record had been accepted", t))
+            if e.kind == "API" and e.data["outcome"] == "ok":
+                nxt = [x for x in t.events[i + 1:] if x.kind in ("API", "COLLECT")]
+                seg = t.events[i + 1: t.events.index(nxt[0])] if nxt else t.events[i + 1:]
+                f_ = [x for x in seg if x.kind == "FETCH"]
+                for s_ in seg:
+                    if s_.kind == "EV_SET" and (not f_ or seg.index(f_[0]) > seg.index(s_)):
+                        bad_c.append((f"{s_.data['ev']} is released before the response was merged", t))
+    ck.ob("R3.release-reflects-api-outcome", fn_construct(cbf), not bad_c, bad_c[0][0] if bad_c else "")
+
     # R4 FIFO --------------------------------------------------------------------------------
     init = prog.func("state", "ExecutionState.__init__")
     qs = {}
